@@ -61,6 +61,12 @@ fn exit_class(r: Result<(), String>) -> String {
 
 /// run one lifetime: install site N, perform the per-thread call scripts, drop
 fn lifetime(n: usize, scripts: &[Vec<bool>]) -> (Vec<String>, String) {
+    lifetime_ending(n, scripts, false)
+}
+
+/// `by_panic`: the scope is left by a panic raised in the body after the calls, so the injector
+/// (and its verifier) is dropped while the thread is unwinding
+fn lifetime_ending(n: usize, scripts: &[Vec<bool>], by_panic: bool) -> (Vec<String>, String) {
     let mut inj = InjectorPP::new();
     inj.when_called(shadow::func!(fn (target)(i32) -> i32)).will_execute(mk(n));
     let outs: Vec<String> = if scripts.len() == 1 {
@@ -80,7 +86,18 @@ fn lifetime(n: usize, scripts: &[Vec<bool>]) -> (Vec<String>, String) {
             .collect();
         hs.into_iter().map(|h| h.join().unwrap()).collect()
     };
-    let ex = exit_class(quiet_catch(std::panic::AssertUnwindSafe(move || drop(inj))));
+    let ex = if by_panic {
+        let r = quiet_catch(std::panic::AssertUnwindSafe(move || {
+            let _keep = inj;
+            panic!("user panic at the end of the lifetime");
+        }));
+        match r {
+            Err(m) if m.contains("user panic at the end of the lifetime") => "ok".to_string(),
+            other => exit_class(other.map(|_| ())),
+        }
+    } else {
+        exit_class(quiet_catch(std::panic::AssertUnwindSafe(move || drop(inj))))
+    };
     (outs, ex)
 }
 
@@ -156,8 +173,9 @@ pub fn run(a: &Args, out: &mut impl Write) {
                 let p = r.below(s.len() as u64 + 1) as usize;
                 s.insert(p, false);
             }
-            let (outs, ex) = lifetime(n, &[s.clone()]);
-            parts.push(format!("{}:{}:{}", script_str(&s), if outs[0].is_empty() { "-".to_string() } else { outs[0].clone() }, ex.replace(':', ",")));
+            let by_panic = r.chance(1, 4);
+            let (outs, ex) = lifetime_ending(n, &[s.clone()], by_panic);
+            parts.push(format!("{}{}:{}:{}", script_str(&s), if by_panic { "!" } else { "" }, if outs[0].is_empty() { "-".to_string() } else { outs[0].clone() }, ex.replace(':', ",")));
         }
         writeln!(out, "life {} | {}", n, parts.join(" ")).unwrap();
     }
